@@ -397,7 +397,7 @@ SMALL16 = {"small": True}
 
 PROPS["C01"] = {
     "cases": run_family("c01", 500, 20000, [
-        {"maxdepth": 4, "budget": 16, "wrow": 0.35, "wlet": 0.25, "pC": 0.0, "pX": 0.0, "pbits": 0.12, "reads": 0.3, "shadow_out": 0.2, "own_counter": 0.35, "while_binds": 0.5},
+        {"maxdepth": 4, "budget": 16, "wrow": 0.35, "wlet": 0.25, "pC": 0.0, "pX": 0.0, "pbits": 0.12, "reads": 0.3, "shadow_out": 0.2, "own_counter": 0.35, "while_binds": 0.5, "while_neg": 0.4},
         {"maxdepth": 3, "budget": 12, "wrow": 0.4, "wlet": 0.2, "pC": 0.03, "pX": 0.03, "pbits": 0.08, "reads": 0.5, "echo": 1.0, "fancy": True},
         {"maxdepth": 5, "budget": 20, "wrow": 0.3, "wlet": 0.3, "pC": 0.0, "pX": 0.0, "reads": 0.0},
         # resetRandom / random between the statements, loop bounds and while conditions that read outputs
@@ -420,7 +420,7 @@ PROPS["C01"] = {
 PROPS["C18"] = dict(PROPS["C01"])
 PROPS["C18"].update({
     "cases": run_family("c18", 400, 20000, [
-        {"maxdepth": 4, "budget": 16, "wrow": 0.4, "wlet": 0.3, "pC": 0.1, "pX": 0.1, "reads": 0.3, "shadow_out": 0.3, "declare": 0.3, "own_counter": 0.35, "while_binds": 0.5},
+        {"maxdepth": 4, "budget": 16, "wrow": 0.4, "wlet": 0.3, "pC": 0.1, "pX": 0.1, "reads": 0.3, "shadow_out": 0.3, "declare": 0.3, "own_counter": 0.35, "while_binds": 0.5, "while_neg": 0.4, "kw_names": 0.3},
         {"maxdepth": 5, "budget": 18, "wrow": 0.35, "wlet": 0.3, "pC": 0.0, "pX": 0.0, "reads": 0.0},
         # rows that fail after the driver call (a virtual signal reading Z/X, a deviating answer) with a caller that keeps iterating:
         # vars() of the rows after the error item
@@ -478,6 +478,7 @@ PROPS["C05"] = {
     "cases": run_family("c05", 500, 20000, [
         {"pC": 0.3, "pX": 0.3, "pZ": 0.05, "pXout": 0.3, "pZout": 0.1, "maxdepth": 1, "reads": 0.0, "n_bidir": 1, "pbits": 0.1},
         {"pC": 0.2, "pX": 0.25, "maxdepth": 3, "reads": 0.2, "pbits": 0.1},
+        {"pC": 0.25, "pX": 0.3, "pZ": 0.1, "maxdepth": 3, "wlet": 0.3, "kw_names": 0.7},
     ]),
     "tags": ("NEW", "CALL", "ROW", "ITEM", "END"),
     "nontrivial": nontrivial_rows(3),
@@ -953,6 +954,7 @@ PROPS["C10"] = {
         {"div": True, "small": False, "reads": 0.5, "pZXread": 0.1, "random": 0.3, "declare": 0.3, "wide": True, "bigvals": True, "shift_small": False, "maxdepth": 3},
         {"div": True, "small": False, "reads": 0.3, "n_bidir": 2, "pC": 0.2, "pX": 0.2, "wide": True, "odd_names": True},
         {"div": True, "small": True, "reads": 0.6, "shadow_out": 0.4, "maxdepth": 4, "drop_read": 0.1},
+        {"div": True, "n_bidir": 2, "pC": 0.15, "pC_out": 0.08, "reads": 0.3, "maxdepth": 2, "full_header": True, "kw_names": 0.3, "random": 0.3},
     ]), ["err", "drop", "add", "dup", "swap", "subst"], 0.3, cont=0.5),
     "extra_cases": "c08-table",
     "tags": RUN_TAGS,
@@ -1163,6 +1165,14 @@ def breaking_edits(rng, src):
         out.append(("\n".join(lines[:hdr_i] + [lines[hdr_i].rstrip("\r") + " " + hdr[0]] + lines[hdr_i + 1:]), "duplicated header name"))
         out.append(("\n".join(lines[:hdr_i] + [lines[hdr_i].rstrip("\r\n")]), "header not followed by a line break"))
     out.append((src.rstrip("\r\n") + "\ndeclare VV = 1;\ndeclare VV = 2;\n", "duplicated declare name"))
+    # the same name declared inside a loop body and again outside it / in a sibling loop (declarations are global)
+    out.append((src.rstrip("\r\n") + "\nloop(dd,1)\ndeclare WW = 1;\nend loop\ndeclare WW = 2;\n", "duplicated declare name (first one inside a loop)"))
+    out.append((src.rstrip("\r\n") + "\nloop(dd,1)\ndeclare WW = 1;\nend loop\nloop(ee,1)\ndeclare WW = 2;\nend loop\n", "duplicated declare name (sibling loops)"))
+    out.append((src.rstrip("\r\n") + "\nloop(dd,1)\nloop(ee,1)\ndeclare WW = 1;\nend loop\ndeclare WW = 2;\nend loop\n", "duplicated declare name (inner loop, then enclosing loop)"))
+    # a header of 65-80 columns does not make bits(65..) legal: a value has 64 bits
+    ncw = rng.choice([65, 66, 70, 80])
+    kw = rng.randrange(65, ncw + 1)
+    out.append((" ".join("W%d" % k_ for k_ in range(ncw)) + "\n" + " ".join(["bits(%d,1)" % kw] + ["0"] * (ncw - kw)) + "\n", "bits width above 64 under a header of %d columns" % ncw))
     return out
 
 
@@ -1937,3 +1947,117 @@ _c17_b2 = PROPS["C17"]["cases"]
 PROPS["C17"]["cases"] = lambda seed, tier: _c17_b2(seed, tier) + c17_multi_cases(seed, tier)
 PROPS["C17"]["pair_oracles"] = [c15_pair_oracle]
 PROPS["C17"]["rule"] += "; plus interleaved iterators over one test with random (each must reproduce the solo run, drawn values included)"
+
+
+# ------------------------------------------------------------------ callers that keep iterating after an EVALUATION error
+
+def evalerr_cases(prefix, seed, tier):
+    """the failing statement is consumed and the run goes on (a failing `let` leaves the old binding, a failing row is
+    skipped, a loop whose bound fails is skipped without a frame, a failing `while` condition is evaluated again on
+    every call); draws made before the failure stay consumed; all with a caller that keeps calling next()"""
+    n = 50 if tier == "quick" else 2500
+    rng = random.Random((seed << 7) ^ 0xE7A1)
+    sigs = [_sig("A", "I", 8), _sig("Q", "O", 8)]
+    bad = ["1/0", "5%(2-2)", "Q/0", "nosuch", "random(1)", "random(0-3)", "signExt(1,2)", "1/(z-z)"]
+    cases = []
+    for i in range(n):
+        b = rng.choice(bad)
+        big = rng.choice([1000003, 2 ** 40, 2 ** 62])
+        shape = rng.randrange(0, 8)
+        if shape == 0:
+            body = ["let z = 3;", "let z = %s;" % b, "(z) X", "(random(%d)) X" % big]
+        elif shape == 1:
+            body = ["let z = 3;", "(random(%d)) (%s)" % (big, b), "(random(%d)) X" % big, "resetRandom;", "(random(%d)) X" % big, "(random(%d)) X" % big]
+        elif shape == 2:
+            body = ["let z = 3;", "loop(i,%s)" % b, "(i) X", "end loop", "(z) X", "loop(i,2)", "(i+z) X", "end loop"]
+        elif shape == 3:
+            body = ["let z = 3;", "loop(i,3)", "(i) X", "let z = %s;" % b, "(z+i) X", "end loop", "(z) X"]
+        elif shape == 4:
+            body = ["let z = 0;", "while(%s)" % b, "(z) X", "end while", "(z) X"]
+        elif shape == 5:
+            body = ["let z = 0;", "while(z < 3)", "let z = z + 1;", "(7/(z-2)) X", "(z) X", "end while", "(z) X"]
+        elif shape == 6:
+            body = ["let z = 2;", "loop(i,2)", "loop(j,2)", "bits(2,%s) " % b, "(i+j) X", "end loop", "end loop", "repeat(2) (n/(z-2)) X", "(z) X"]
+        else:
+            body = ["let z = 1;", "(random(%d)) X" % big, "let z = random(%d) + (%s);" % (big, b), "(random(%d)) X" % big, "(z) X"]
+        cases.append({"id": "%s-ee-%d-%d" % (prefix, seed & 0xFFFF, i), "kind": "run" if i % 3 else "static", "src": "A Q\n" + "\n".join(body) + "\n",
+                      "sigs": [dict(s_) for s_ in sigs], "layout": [1], "table": [["3"], ["4"]], "echo": 0, "wdefault": 0, "faults": [], "cont": 1,
+                      "max": 30, "seed": rng.randrange(1, 1 << 31)})
+    return cases
+
+
+for _p in ("C01", "C10", "C17", "C18", "C15", "C04"):
+    _extend(_p, (lambda pref: (lambda seed, tier: evalerr_cases(pref, seed, tier)))(_p.lower()),
+            "plus the evaluation-error family: failing lets / row entries / loop bounds / while conditions in the middle of a run, caller keeps calling next() (dynamic and static)")
+if "STATIC" not in PROPS["C01"]["tags"]:
+    for _p in ("C01", "C17", "C18", "C04"):
+        PROPS[_p]["tags"] = tuple(PROPS[_p]["tags"]) + ("STATIC", "SROW")
+
+
+# ------------------------------------------------------------------ round-4 blind spots: more fixed shapes
+
+def deep_nesting_cases(prefix):
+    """9 to 12 nested loops / repeats / whiles, with a `let` at every level and rows after the innermost blocks have ended"""
+    sigs = [_sig("A", "I", 16), _sig("Q", "O", 4)]
+    cases = []
+    for depth in (8, 9, 10, 12):
+        for variant in range(3):
+            lines = ["A Q", "let k = 1;"]
+            for d in range(depth):
+                if variant == 1 and d % 3 == 2:
+                    lines += ["let w%d = 0;" % d, "while(w%d < 2)" % d, "let w%d = w%d + 1;" % (d, d)]
+                else:
+                    lines += ["loop(i%d,2)" % d]
+                lines += ["let k = k + %d;" % (d + 1)]
+                if variant == 2:
+                    lines += ["let s%d = k;" % d]
+            lines += ["(k) X"]
+            for d in reversed(range(depth)):
+                lines += ["end while" if (variant == 1 and d % 3 == 2) else "end loop", "(k) X"]
+            cases.append({"id": "%s-deep-%d-%d" % (prefix, depth, variant), "kind": "run", "src": "\n".join(lines) + "\n", "sigs": [dict(s_) for s_ in sigs],
+                          "layout": [1], "table": [["1"]], "echo": 0, "wdefault": 0, "faults": [], "max": 60, "seed": 1})
+    return cases
+
+
+def more_name_cases(prefix):
+    """outputs whose names are ambiguous when concatenated (Q / QQ, AB+C / A+BC), a declared signal S next to a real pin S_out"""
+    cases = []
+    specs = [
+        ([_sig("Q", "O"), _sig("QQ", "O"), _sig("A", "I")], "A Q QQ", "1 2 3", [0, 1], [[(1, "swap 0 1")], [(2, "subst 0 1")], [(1, "subst 1 0")]]),
+        ([_sig("AB", "O"), _sig("C", "O"), _sig("A", "O"), _sig("BC", "O"), _sig("I", "I")], "I AB C A BC", "1 2 3 4 5", [0, 1, 2, 3],
+         [[(1, "subst 0 2"), (1, "subst 1 3")], [(1, "swap 0 2")], [(2, "subst 2 0")]]),
+        ([_sig("A", "I"), _sig("S_out", "O"), _sig("Q", "O")], "A S_out Q\ndeclare S = Q + 1;", "1 2 3", [1, 2], [[]]),
+        ([_sig("A", "I"), _sig("S_out", "O"), _sig("Q", "O")], "A S_out Q S\ndeclare S = Q + 1;", "1 2 3 Z", [1, 2], [[]]),
+        ([_sig("A", "I"), _sig("Q_out", "O"), _sig("Q", "O")], "A Q_out", "1 2", [1, 2], [[]]),
+        ([_sig("A", "I"), _sig("Q", "O")], "A Q_out", "1 2", [1], [[]]),
+        ([_sig("A", "I"), _sig("V_out", "B"), _sig("Q", "O")], "A V_out V_out_out Q V\ndeclare V = Q;", "1 1 2 3 Z", [1, 2], [[]]),
+    ]
+    for i, (sigs, hdr, row, lay, faultsets) in enumerate(specs):
+        for j, faults in enumerate(faultsets):
+            cases.append({"id": "%s-nm-%d-%d" % (prefix, i, j), "kind": "run", "src": hdr + "\n" + row + "\n" + row + "\n" + row + "\n", "sigs": [dict(s_) for s_ in sigs],
+                          "layout": lay, "table": [[str(2 + k_ + r_) for k_ in range(len(lay))] for r_ in range(3)], "echo": 0, "wdefault": 0, "faults": faults, "cont": 1,
+                          "max": 20, "seed": 1})
+    return cases
+
+
+for _p in ("C01", "C18"):
+    _extend(_p, (lambda pref: (lambda seed, tier: deep_nesting_cases(pref)))(_p.lower()), "plus 8-12 nested loops / whiles with a let at every level")
+for _p in ("C13", "C14", "C06", "C11", "C03"):
+    _extend(_p, (lambda pref: (lambda seed, tier: more_name_cases(pref)))(_p.lower()),
+            "plus names that are ambiguous when concatenated (Q/QQ, AB+C/A+BC) with swapped / substituted answers, and a declared S next to a real pin S_out")
+# the static iterator on the C05 / C02 / C17 tests as well
+for _p in ("C05", "C02", "C17"):
+    PROPS[_p]["cases"] = static_twins(PROPS[_p]["cases"], 5)
+    if "STATIC" not in PROPS[_p]["tags"]:
+        PROPS[_p]["tags"] = tuple(PROPS[_p]["tags"]) + ("STATIC", "SROW")
+    PROPS[_p]["rule"] += "; every fifth test also through try_iter_static"
+
+
+# C09 through the .dig entry point: errors of load_test carry the test's own source and must be renderable
+def c09_dig_cases(seed, tier):
+    import gen_dig
+    return [dict(c, id="c09-" + c["id"]) for c in gen_dig.cases((seed ^ 0xC09) & 0xFFFFFF, 300 if tier == "quick" else 6000, 0, 0)]
+
+
+_extend("C09", c09_dig_cases, "plus .dig documents whose tests are loaded with load_test: every error must be renderable with the source it carries")
+PROPS["C09"]["oracles"] = PROPS["C09"]["oracles"] + [_f16.c16_load_oracle]
